@@ -616,7 +616,8 @@ def make_jobs(ctx, n_explicit, n_contingent, n_dom_trials, n_chain=0, n_chain_co
 def run(ctx):
     q = ctx.quick
     n_explicit, n_contingent, n_dom = (50, 40, 2) if q else (250, 250, 3)
-    jobs = make_jobs(ctx, n_explicit, n_contingent, n_dom)
+    n_chain, n_chain_cont = (20, 8) if q else (120, 40)
+    jobs = make_jobs(ctx, n_explicit, n_contingent, n_dom, n_chain, n_chain_cont)
     with Pool(POOL, initializer=_warm) as pool:
         recs = pool.map(worker, jobs, chunksize=2)
     stats = {"jobs": len(jobs), "skipped": {}, "raised": {}, "above_cap": 0}
@@ -719,7 +720,11 @@ def run(ctx):
     stats["compiled_solvable"] = sum(1 for r in judged if r["id"] in kg)
     stats["with_dropped_states"] = sum(1 for r in judged if r["fam"] == "explicit" and "PK" in r["modes"])
     stats["contingent"] = sum(1 for r in judged if r["fam"] == "contingent")
-    stats["variants_dup"] = sum(1 for r in judged if r["variant"] == "dup")
+    stats["variants_dup"] = sum(1 for r in judged if r["variant"] in ("dup", "rev"))
+    stats["chain_stratum"] = sum(1 for r in judged if r["job"].get("strat") == "chain")
+    stats["chain_stratum_conformant_solvable"] = sum(1 for r in judged if r["job"].get("strat") == "chain" and r["id"] in pg)
+    stats["chain_stratum_with_dropped_states"] = sum(
+        1 for r in judged if r["job"].get("strat") == "chain" and r["fam"] == "explicit" and "PK" in r["modes"])
     stats["variants_ext_all_dropped"] = sum(
         1 for r in judged if r["variant"] == "ext" and r["base"] in byid and byid[r["base"]]["raised"] == "none"
         and sorted(map(str, r["kept"])) == sorted(map(str, byid[r["base"]]["kept"])))
@@ -730,11 +735,11 @@ def run(ctx):
     ctx.cov["distinct_nontrivial"] = stats["conformant_solvable"]
     ctx.cov["exhaustive"] = True
     ctx.cov["rule"] = (
-        "%d explicit-state base problems (each with a duplicate/reorder variant and up to %d added-state variants) and %d "
-        "contingent problems; one evaluation = one (problem, possible initial states, compiled problem, map-back table) "
+        "%d explicit-state base problems (each with a duplicate/reorder variant and up to %d added-state variants), %d "
+        "contingent problems, and %d + %d dependency-chain problems (explicit with a reversed-order variant / contingent); one evaluation = one (problem, possible initial states, compiled problem, map-back table) "
         "record whose compiled state space (with the belief of the mapped-back plan) and whose belief space are explored "
         "exhaustively by TLC (cap %d distinct states per exploration: %d above the cap); non-trivial = a conformant plan exists."
-        % (n_explicit, n_dom, n_contingent, CASE_CAP, stats["above_cap"]))
+        % (n_explicit, n_dom, n_contingent, n_chain, n_chain_cont, CASE_CAP, stats["above_cap"]))
     ex = judged[0]
     ctx.sample({"family": ex["fam"], "problem": ex["P"], "possible_initial_states": ex["inits"], "constraints": ex["cons"],
                 "compiled_actions": [a["name"] for a in ex["K"]["actions"]], "back": ex["back"][:6], "kept_tags": ex["kept"]})
